@@ -371,3 +371,36 @@ def _deepcopy_args(a):
         else:
             out.append(copy.deepcopy(v))
     return out
+
+
+def perturbed_checkpoint(ckpt, k: int):
+    """Deep copy of a checkpoint whose pairs are changed in the last bits (fixed sign pattern number k).
+    Used by the differential oracles as a conditioning probe: if the *reference* continuation moves by more
+    than the comparison tolerance under such a perturbation, the comparison is decided by rounding."""
+    import copy
+
+    eps = 2.220446049250313e-16
+    ck = copy.deepcopy(ckpt)
+    sk = np.array(ck.hess_inv.sk, dtype=float, copy=True)
+    yk = np.array(ck.hess_inv.yk, dtype=float, copy=True)
+    idx = np.arange(sk.size).reshape(sk.shape)
+    ck.hess_inv.sk = sk * (1.0 + 2.0 * eps * np.where((idx + k) % 2 == 0, 1.0, -1.0))
+    ck.hess_inv.yk = yk * (1.0 + 2.0 * eps * np.where((idx // 2 + k) % 2 == 0, 1.0, -1.0))
+    return ck
+
+
+def continuation_is_well_conditioned(rerun, ckpt, ref_x, tol, patterns: int = 3) -> bool:
+    """rerun(checkpoint) -> Trace of the reference continuation started from `checkpoint`.
+    False when some 2-ulp perturbation of the pairs moves the reference's own next iterate by more than tol/10
+    (or makes a factorisation break down)."""
+    if np.asarray(ckpt.hess_inv.sk).size == 0:
+        return True
+    for k in range(patterns):
+        alt = rerun(perturbed_checkpoint(ckpt, k))
+        if alt.exc is not None:
+            if isinstance(alt.exc, np.linalg.LinAlgError):
+                return False
+            continue  # anything else is not evidence of ill-conditioning: keep judging
+        if alt.res["x"].shape != np.shape(ref_x) or float(np.max(np.abs(alt.res["x"] - ref_x))) > 0.1 * tol:
+            return False
+    return True
